@@ -2,6 +2,7 @@ package c17
 
 import (
 	"bytes"
+	"errors"
 	stdjson "encoding/json"
 	"fmt"
 	"io"
@@ -25,18 +26,37 @@ type StreamCase struct {
 	// EOFWithData: the reader returns io.EOF together with its last bytes (as
 	// HTTP bodies and iotest.DataErrReader do) instead of in a separate empty Read.
 	EOFWithData bool `json:"eof_with_data,omitempty"`
+	// Stall: before every Read that delivers data the reader returns (0, nil)
+	// this many times ("nothing happened", which io.Reader allows).
+	Stall int `json:"empty_reads,omitempty"`
+	// FailAfter > 0: once that many bytes have been delivered the reader fails with errBoom instead of going on.
+	FailAfter int `json:"fail_after,omitempty"`
 }
+
+var errBoom = errors.New("boom: the source failed")
 
 type chunkReader struct {
 	b       []byte
 	n       int
 	eofData bool
+	stall   int
+	fail    int
+	stalled int
+	given   int
 }
 
 func (r *chunkReader) Read(p []byte) (int, error) {
+	if r.fail > 0 && r.given >= r.fail {
+		return 0, errBoom
+	}
 	if len(r.b) == 0 {
 		return 0, io.EOF
 	}
+	if r.stalled < r.stall {
+		r.stalled++
+		return 0, nil
+	}
+	r.stalled = 0
 	n := r.n
 	if n > len(p) {
 		n = len(p)
@@ -44,8 +64,12 @@ func (r *chunkReader) Read(p []byte) (int, error) {
 	if n > len(r.b) {
 		n = len(r.b)
 	}
+	if r.fail > 0 && r.given+n > r.fail {
+		n = r.fail - r.given
+	}
 	copy(p, r.b[:n])
 	r.b = r.b[n:]
+	r.given += n
 	if r.eofData && len(r.b) == 0 {
 		return n, io.EOF
 	}
@@ -91,7 +115,16 @@ func drawStream(t *rapid.T) StreamCase {
 		Indent:      rapid.SampledFrom([]string{"", " ", "\t"}).Draw(t, "indent"),
 		Escape:      rapid.Bool().Draw(t, "esc"),
 		EOFWithData: gen.OneIn(t, 3, "eofdata"),
+		Stall:       rapid.SampledFrom([]int{0, 0, 0, 1, 3}).Draw(t, "stall"),
+		FailAfter:   failAfter(t, len(b)),
 	}
+}
+
+func failAfter(t *rapid.T, n int) int {
+	if n < 2 || !gen.OneIn(t, 8, "srcfail") {
+		return 0
+	}
+	return rapid.IntRange(1, n-1).Draw(t, "failafter")
 }
 
 func tokNorm(tk any) any {
@@ -110,7 +143,7 @@ func tokNorm(tk any) any {
 
 // trace runs a decoder through the mode's action script and records everything observable.
 func traceFork(c StreamCase) (tr []any) {
-	d := fj.NewDecoder(&chunkReader{c.Stream, c.Chunk, c.EOFWithData})
+	d := fj.NewDecoder(&chunkReader{b: c.Stream, n: c.Chunk, eofData: c.EOFWithData, stall: c.Stall, fail: c.FailAfter})
 	d.UseNumber()
 	for step := 0; step < 200; step++ {
 		tr = append(tr, "more", d.More(), "offset", d.InputOffset())
@@ -146,7 +179,7 @@ func traceFork(c StreamCase) (tr []any) {
 }
 
 func traceStd(c StreamCase) (tr []any) {
-	d := stdjson.NewDecoder(&chunkReader{c.Stream, c.Chunk, c.EOFWithData})
+	d := stdjson.NewDecoder(&chunkReader{b: c.Stream, n: c.Chunk, eofData: c.EOFWithData, stall: c.Stall, fail: c.FailAfter})
 	d.UseNumber()
 	for step := 0; step < 200; step++ {
 		tr = append(tr, "more", d.More(), "offset", d.InputOffset())
@@ -182,10 +215,10 @@ func traceStd(c StreamCase) (tr []any) {
 }
 
 func checkStream(c StreamCase) ev.Verdict {
-	if c.Chunk < 1 || c.Chunk > 1<<16 || len(c.Stream) > 1<<16 {
+	if c.Chunk < 1 || c.Chunk > 1<<16 || len(c.Stream) > 1<<16 || c.Stall < 0 || c.Stall > 8 || c.FailAfter < 0 {
 		return ev.Excluded("chunk/stream size outside the unit")
 	}
-	v := ev.Verdict{Classes: []string{"mode=" + c.Mode}}
+	v := ev.Verdict{Classes: []string{"mode=" + c.Mode, fmt.Sprintf("empty-reads=%d", c.Stall), fmt.Sprintf("source-fails=%v", c.FailAfter > 0)}}
 	if c.Mode == "encode" {
 		// values = the well-formed prefix values of the stream, decoded by the standard library
 		var vals []any
